@@ -54,7 +54,7 @@ CLAIMED['C16'] = {
             'idempotence); every exported insertion-by-location on DelaunayTriangulation passes coordinate '
             'canonicalisation before the vertex can reach storage; the toroidal builder arms canonicalise, construct '
             'from the canonicalised vertices and record the topology before Ok; no exported operation other than '
-            'set_global_topology changes the recorded topology on any path (whole-receiver replacements must copy it). Decides the wrapping-mode clauses '
+            'set_global_topology changes the recorded topology on any path (whole-receiver replacements must copy it); a vertex re-created at perturbed coordinates is wrapped again; every builder arm passes the configured options and guarantee to its constructor. Decides the wrapping-mode clauses '
             'structurally; the periodic image-point mode is not decided.',
     'note': 'Trusted: rustc MIR; the canonicalisation leaf is GlobalTopologyModel::canonicalize_point_in_place (any '
             'impl); congruence modulo the period is arithmetic and not decided.',
